@@ -646,14 +646,17 @@ def _dsl_program(r):
 
 
 def _pm_program(r):
-    pat = {"literal": '"a"', "ident": "A", "expr": '("a")'}[r["pat"]]
+    pat = {"literal": '"a"', "raw": 'r#"a"#', "concat": 'concat!("a", "c")', "stringify": "stringify!(a)",
+           "ident": "A", "expr": '("a")', "range": '"a"..="z"', "range_from": '"a"..', "char": "'a'", "bytes": 'b"a"',
+           "int": "5", "path": "K::A", "binding": 'x @ "a"', "ref": '&"a"'}[r["pat"]]
     if r["form"] in ("trim_start_matches", "trim_end_matches"):
         call = "konst::parser_method!{p, %s; %s | \"b\"}; 0" % (r["form"], pat)
     elif r["dflt"]:
         call = "konst::parser_method!{p, %s; %s => 1, \"b\" => 2, _ => 0}" % (r["form"], pat)
     else:
         call = "konst::parser_method!{p, %s; %s => 1, \"b\" => 2}" % (r["form"], pat)
-    return "#![allow(warnings)]\nconst A: &str = \"a\";\npub fn f(mut p: konst::Parser<'_>) -> u32 { %s }\n" % call
+    return ("#![allow(warnings)]\nconst A: &str = \"a\";\nstruct K; impl K { const A: &'static str = \"a\"; }\n"
+            "pub fn f(mut p: konst::Parser<'_>) -> u32 { %s }\n" % call)
 
 
 def _verdict_items(run):
@@ -662,9 +665,16 @@ def _verdict_items(run):
     out, descs = _destructure_descs(run, run.tier)
     for k, r in enumerate(descs):
         flavors = ["plain", "typed"] + (["typeform"] if r["shape"] == "braced" and r["n"] > 0 else [])
+        # the type form with generic arguments in the path (`S<T>, {..}` / `TS<T>, (..)`)
+        if r["shape"] in ("braced", "tuple_struct") and r["n"] > 0:
+            flavors.append("generic")
         for fl in flavors:
             # the annotated form of a reference / wrong arity is a different misuse (type mismatch): still Rejected
             items.append(("d%d_%s" % (k, fl), gd.verdict_program(r, fl), r["verdict"], dict(r, flavor=fl, mac="destructure!")))
+            if r["isref"]:
+                # a `&mut` reference is a reference too
+                items.append(("d%d_%s_mut" % (k, fl), gd.verdict_program(r, fl, refmut=True), r["verdict"],
+                              dict(r, flavor=fl + "/&mut", mac="destructure!")))
     gout = vec("C17-MacroGuards.ndjson")
     run.mc("MC_MacroGuards", "MacroGuards.cfg", env={"OUT": gout}, heap="2g", timeout=600)
     for k, l in enumerate(open(gout)):
